@@ -16,6 +16,7 @@ BUILTIN_ENUMS={
  'Level':['_0','Error','Warn','Info','Debug','Trace'],
  'LevelFilter':['Off','Error','Warn','Info','Debug','Trace'],
  'Cow':['Borrowed','Owned'],
+ 'ErrorKind':['NotFound','PermissionDenied','ConnectionRefused','ConnectionReset','HostUnreachable','NetworkUnreachable','ConnectionAborted','NotConnected','AddrInUse','AddrNotAvailable','NetworkDown','BrokenPipe','AlreadyExists','WouldBlock','NotADirectory','IsADirectory','DirectoryNotEmpty','ReadOnlyFilesystem','FilesystemLoop','StaleNetworkFileHandle','InvalidInput','InvalidData','TimedOut','WriteZero','StorageFull','NotSeekable','QuotaExceeded','FileTooLarge','ResourceBusy','ExecutableFileBusy','Deadlock','CrossesDevices','TooManyLinks','InvalidFilename','ArgumentListTooLong','Interrupted','Unsupported','UnexpectedEof','OutOfMemory','InProgress','Other','Uncategorized'],
  'Bound':['Included','Excluded','Unbounded'],
  'SecondsFormat':['Secs','Millis','Micros','Nanos','AutoSi'],
  'Unexpected':['Bool','Unsigned','Signed','Float','Char','Str','Bytes','Unit','Option','NewtypeStruct','Seq','Map','Enum','UnitVariant','NewtypeVariant','TupleVariant','StructVariant','Other'],
